@@ -1,4 +1,9 @@
+#[cfg(not(multiqueue2_verif))]
 use std::sync::atomic::{AtomicUsize, Ordering};
+#[cfg(multiqueue2_verif)]
+use crate::verif_hooks::AtomicUsize;
+#[cfg(multiqueue2_verif)]
+use std::sync::atomic::Ordering;
 
 #[cfg(target_pointer_width = "32")]
 mod index_data {
@@ -181,6 +186,13 @@ impl<'a> Transaction<'a> {
             lord: self.lord,
             mask: self.mask,
         }
+    }
+}
+
+#[cfg(multiqueue2_verif)]
+impl CountedIndex {
+    pub fn verif_addr(&self) -> usize {
+        self.val.verif_addr()
     }
 }
 
